@@ -115,6 +115,22 @@ def sweep(tier: str) -> Sweep:
                                 sw.check(got is want, f"{op} with a tagged operand does not denote the documented set", case, want, got)
                             except Exception as e:  # noqa: BLE001
                                 sw.check(False, "match raised on a well-formed expression", {**case, "clause": "no-exception"}, "a bool", f"{type(e).__name__}: {e}")
+        # one version in several spellings (and versions that differ only in build / local label): the comparison
+        # operators of an expression answer exactly as the class's own operators do
+        variants = {"base": [], "sem": ["1.2.3-rc.1", "1.2.3-rc1", "1.2.3-rc.2", "1.2.3-alpha.2", "1.2.3-alpha2", "1.2.3+b1", "1.2.3+b2", "1.2.3", "1.2.3-rc.1+b1"],
+                    "pkg": ["1.2.3rc1", "1.2.3-rc.1", "1.2.3c1", "1.2.3_pre_1", "1.2.3a2", "1.2.3alpha2", "1.2.3.post1", "1.2.3-1", "1.2.3rev1", "1.2.3+abc", "1.2.3+abd", "1.2.3",
+                            "1.2.3.dev4", "1.2.3dev4", "0!1.2.3", "1.2.3+abc.1", "1.2.3+abc-1"]}[c]
+        vobjs = [(s_, o_) for s_ in variants if (o_ := parse_ok(cls, s_)) is not None]
+        for (sv, v), (sw_, w) in itertools.product(vobjs, repeat=2):
+            for op in OPS:
+                expr = op + sw_
+                case = {"cls": c, "v": sv, "expr": expr, "op": op or "bare", "clause": "denotation"}
+                sw.note(["variant", c, sv, expr], op or "bare")
+                try:
+                    got = v.match(expr)
+                    sw.check(got is bool(OPS[op](v, w)), f"{op or 'bare'} does not coincide with the comparison operator on another spelling of the operand", case, bool(OPS[op](v, w)), got)
+                except Exception as e:  # noqa: BLE001
+                    sw.check(False, "match raised on a well-formed expression", {**case, "clause": "no-exception"}, "a bool", f"{type(e).__name__}: {e}")
         # wildcards
         for x, y in itertools.product(NUMS, NUMS):
             for expr, lo, hi in ((f"{x}.*", (x, 0, 0), (x + 1, 0, 0)), (f"{x}.{y}.*", (x, y, 0), (x, y + 1, 0))):
